@@ -267,8 +267,9 @@ UNK = object()
 class Construct:
     """Evaluates __init__ chains of the quantiser classes on constant arguments (finite, loop free)."""
 
-    def __init__(self, repo: Repo, prims):
+    def __init__(self, repo: Repo, prims, family=None):
         self.repo, self.prims = repo, prims
+        self.family = family or (lambda c: _in_family(repo, c))
 
     def run(self, ci: ClassInfo, args: Sequence[Any], kwargs: Dict[str, Any]):
         attrs: Dict[str, Any] = {}
@@ -285,7 +286,7 @@ class Construct:
                     start = i + 1
         for c in mro[start:]:
             if "__init__" in c.methods:
-                return c.methods["__init__"] if _in_family(self.repo, c) else None
+                return c.methods["__init__"] if self.family(c) else None
         return None
 
     def _init(self, inst, after, args, kwargs, attrs, asserts, depth, first=True):
@@ -934,6 +935,7 @@ class Inst:
     mod: Module
     node: ast.AST
     note: str = ""
+    outer: Optional[tuple] = None   # (tuple-coord class, args, kwargs) when this is a component of a vector form
 
 
 def _context_path(node) -> str:
@@ -996,17 +998,56 @@ def discover(ctx, prims) -> List[Inst]:
     fp_cls = repo.cls("FixedPoint", SERMOD)
 
     # the two generic tuple constructors are modelled: check that the model still describes them
-    def generic_ctor(ci, target, want_args):
+    def generic_ctor(ci, target, want_args, forwarded):
+        """The instance table models `ci(...)` as one `target(self.ELEM_SPEC, ...)` per component.  What the model
+        relies on (and what is checked, wherever in the class' own methods the construction happens - helper
+        generators included): the primitive is self.ELEM_SPEC; parameters listed in `forwarded` are handed on
+        under the same name; the remaining range arguments are passed through untouched (plain names /
+        attributes, no arithmetic, no constants) and nothing else (e.g. zero_median) is supplied."""
         init = ci.methods.get("__init__")
         ctx.require(init is not None, f"{ci.name}.__init__ vanished")
-        cs = [c for c in calls(init.node, into_defs=True) if _resolve_cls(repo, ci.module, c.func) == target]
-        ok = bool(cs) and all([_t(a) for a in c.args] == want_args and not c.keywords for c in cs)
-        ctx.ob("C10.R3", f"{ci.name}.__init__ builds {target.name}({', '.join(want_args)}) per component", ok, init.where,
-               f"element construction changed ({[norm(c) for c in cs]}): the instance table no longer models it")
+        tinit = repo.lookup_method(target, "__init__")
+        ctx.require(tinit is not None, f"{target.name}.__init__ vanished")
+        tparams = [a.arg for a in tinit.node.args.args][1:]
+        iparams = [a.arg for a in init.node.args.args][1:]
+        cs = []
+        for m in ci.methods.values():
+            cs += [c for c in calls(m.node, into_defs=True) if _resolve_cls(repo, ci.module, c.func) == target]
+        problems = []
+        for c in cs:
+            if any(isinstance(a, ast.Starred) for a in c.args) or any(k.arg is None for k in c.keywords) \
+                    or len(c.args) > len(tparams):
+                problems.append(f"{norm(c)}: star arguments")
+                continue
+            bound = dict(zip(tparams, c.args))
+            bound.update({k.arg: k.value for k in c.keywords})
+            if _t(bound.get(tparams[0])) != "self.ELEM_SPEC":
+                problems.append(f"{norm(c)}: primitive is not self.ELEM_SPEC")
+            for name, val in bound.items():
+                if name == tparams[0]:
+                    continue
+                if name in forwarded:
+                    if not (isinstance(val, ast.Name) and val.id == name and name in iparams):
+                        problems.append(f"{norm(c)}: {name} is not the constructor's own `{name}` parameter")
+                elif name in want_args:
+                    idx_consts = {id(n.slice) for n in ast.walk(val) if isinstance(n, ast.Subscript)}
+                    if any(isinstance(n, (ast.BinOp, ast.UnaryOp, ast.Call, ast.IfExp)) or
+                           (isinstance(n, ast.Constant) and id(n) not in idx_consts) for n in ast.walk(val)):
+                        problems.append(f"{norm(c)}: {name}={_t(val)} is computed, not passed through")
+                else:
+                    problems.append(f"{norm(c)}: supplies {name}, which the instance table does not model")
+            missing = [n for n in want_args if n not in bound]
+            if missing:
+                problems.append(f"{norm(c)}: {missing} not supplied")
+        ok = bool(cs) and not problems
+        shown = ["self.ELEM_SPEC"] + list(want_args)
+        ctx.ob("C10.R3", f"{ci.name}.__init__ builds {target.name}({', '.join(shown)}) per component", ok, init.where,
+               f"element construction changed ({problems[:3] or 'no construction found'}): the instance table no "
+               f"longer models it")
         return {id(c) for c in cs}
     modelled = set()
-    modelled |= generic_ctor(qtc, qf_cls, ["self.ELEM_SPEC", "lower", "upper"])
-    modelled |= generic_ctor(fptc, fp_cls, ["self.ELEM_SPEC", "int_bits", "frac_bits", "signed"])
+    modelled |= generic_ctor(qtc, qf_cls, ["lower", "upper"], ())
+    modelled |= generic_ctor(fptc, fp_cls, ["int_bits", "frac_bits", "signed"], ("int_bits", "frac_bits", "signed"))
 
     for mod in repo.modules.values():
         num = Num(repo, mod, prims)
@@ -1084,13 +1125,15 @@ def discover(ctx, prims) -> List[Inst]:
                         continue
                     scales = ((bound["lower"], bound["upper"]),)
                 for lo, hi in dict.fromkeys(scales):
-                    out.append(Inst(f"{base_key}[{prim.name} {lo}..{hi}]", "qf", qf_cls, [prim, lo, hi], {}, mod, c))
+                    out.append(Inst(f"{base_key}[{prim.name} {lo}..{hi}]", "qf", qf_cls, [prim, lo, hi], {}, mod, c,
+                                    outer=(ci, args, kwargs)))
             elif fam == "fptc":
                 elem = repo.class_attr(ci, "ELEM_SPEC")
                 prim = Num(repo, ci.module, prims).ev(elem, {}) if elem is not None else None
                 if not isinstance(prim, PrimVal):
                     raise AnalysisError(f"C10: {ci.name}.ELEM_SPEC is not an integer primitive")
-                out.append(Inst(f"{base_key}({_argtxt(args, kwargs)})", "fp", fp_cls, [prim] + args, kwargs, mod, c))
+                out.append(Inst(f"{base_key}({_argtxt(args, kwargs)})", "fp", fp_cls, [prim] + args, kwargs, mod, c,
+                                outer=(ci, args, kwargs)))
     return out
 
 
@@ -1291,8 +1334,106 @@ def self_check_range(ctx, inst: Inst, where, num: Num, dec, enc, env, raw_min, r
         ctx.ob("C10.R3", f"{inst.key}: clamp encloses the decoded wire range", ok, where,
                f"encoder clamps to [{c_lo!r}, {c_hi!r}] but raw {raw_min}..{raw_max} decode to [{d_lo!r}, {d_hi!r}]: "
                f"every raw value decoding outside the clamp re-encodes to the clamp's code")
+    if inst.outer is not None:
+        _vector_wrapper_check(ctx, inst, where, d_lo, d_hi, tol)
 
 
+
+
+_NUMERIC_FUNCS = ("min", "max", "round", "int", "abs", "math.floor", "math.ceil", "math.trunc", "math.fmod", "math.fabs",
+                  "math.copysign", "divmod", "pow")
+
+
+def _derived_names(f: FuncInfo, seeds: Set[str], from_reads: bool) -> Set[str]:
+    """Names carrying (components of) the value: the value parameter / results of reads, and everything assigned
+    from or iterated out of them."""
+    derived = set(seeds)
+
+    def mentions(e) -> bool:
+        for n in ast.walk(e):
+            if isinstance(n, ast.Name) and n.id in derived:
+                return True
+            if from_reads and isinstance(n, ast.Call) and isinstance(n.func, ast.Attribute) \
+                    and n.func.attr in ("read", "deserialize", "read_bytes"):
+                return True
+        return False
+    for _ in range(6):
+        before = len(derived)
+        for n in walk(f.node, into_defs=True):
+            if isinstance(n, ast.Assign) and mentions(n.value):
+                for t in n.targets:
+                    derived |= {x.id for x in ast.walk(t) if isinstance(x, ast.Name)}
+            elif isinstance(n, (ast.For, ast.comprehension)) and mentions(n.iter):
+                derived |= {x.id for x in ast.walk(n.target) if isinstance(x, ast.Name)}
+        if len(derived) == before:
+            break
+    return derived
+
+
+def _vector_wrapper_check(ctx, inst: Inst, where, d_lo, d_hi, tol):
+    """serialize/deserialize of the tuple-coord class (overrides included) may only hand the components to / from
+    the element codecs; a clamp applied to a component there must enclose the element's decoded wire range just
+    like the element's own clamp, any other arithmetic on a component is an unmodelled, non-invertible step."""
+    repo = ctx.repo
+    tcls, targs, tkwargs = inst.outer
+    prims = prim_table(repo)
+    con = Construct(repo, prims, family=lambda c: _is_sub(repo, c, "TupleCoord"))
+    try:
+        attrs, _ = con.run(tcls, targs, tkwargs)
+    except AnalysisError:
+        attrs = {}
+    problems = []
+    nsite = 0
+    for k in repo.mro(tcls):
+        if not _is_sub(repo, k, "TupleCoord"):
+            continue
+        for meth in ("serialize", "deserialize"):
+            f = k.methods.get(meth)
+            if f is None:
+                continue
+            params = [a.arg for a in f.node.args.args]
+            seeds = {params[1]} if meth == "serialize" and len(params) > 1 else set()
+            derived = _derived_names(f, seeds, from_reads=(meth == "deserialize"))
+            num = Num(repo, f.module, prims)
+
+            def is_comp(e):
+                return isinstance(e, ast.Name) and e.id in derived
+            for n in walk(f.node, into_defs=True):
+                if isinstance(n, ast.BinOp) and isinstance(n.op, (ast.Add, ast.Sub, ast.Mult, ast.Div, ast.FloorDiv, ast.Mod,
+                                                                  ast.Pow)) and (is_comp(n.left) or is_comp(n.right)):
+                    nsite += 1
+                    problems.append(f"{f.qual}: `{norm(n)}` computes on a component")
+                elif isinstance(n, ast.Call):
+                    name = ap(n.func) or ""
+                    last = name.split(".")[-1]
+                    comp_args = [i for i, a in enumerate(n.args) if is_comp(a)]
+                    if not comp_args or not (name in _NUMERIC_FUNCS or last in ("clip", "rint", "around", "floor", "ceil")):
+                        continue
+                    nsite += 1
+                    lo_b = hi_b = None
+                    if name in ("min", "max") and len(n.args) == 2 and len(comp_args) == 1:
+                        b = n.args[1 - comp_args[0]]
+                        lo_b, hi_b = (None, b) if name == "min" else (b, None)
+                    elif last == "clip" and len(n.args) == 3 and comp_args == [0]:
+                        lo_b, hi_b = n.args[1], n.args[2]
+                    else:
+                        problems.append(f"{f.qual}: `{norm(n)}` alters a component")
+                        continue
+                    try:
+                        lo_v = num.ev(lo_b, attrs) if lo_b is not None else None
+                        hi_v = num.ev(hi_b, attrs) if hi_b is not None else None
+                    except Unknown as u:
+                        raise AnalysisError(f"{where} {inst.key}: component clamp bound `{u}` in {f.qual} not evaluable")
+                    for v in (lo_v, hi_v):
+                        if v is not None and (isinstance(v, bool) or not isinstance(v, (int, float))):
+                            raise AnalysisError(f"{where} {inst.key}: component clamp bound in {f.qual} is not a number")
+                    if (lo_v is not None and lo_v > d_lo + tol) or (hi_v is not None and hi_v < d_hi - tol):
+                        problems.append(f"{f.qual}: `{norm(n)}` clamps components to [{lo_v!r}, {hi_v!r}] but the "
+                                        f"element decodes raws to [{d_lo!r}, {d_hi!r}]")
+    ctx.stats["C10.R3.vector component transform sites"] = ctx.stats.get("C10.R3.vector component transform sites", 0) + nsite
+    ctx.ob("C10.R3", f"{inst.key}: vector form hands components through unaltered (clamps enclose the decoded range)",
+           not problems, where, "; ".join(problems[:3]) + (": raws decoding outside that clamp re-encode to the clamp's "
+                                                           "code" if problems else ""))
 
 # ------------------------------------------------------------------------------------------ R1 (wrappers) / R4 (purity)
 
